@@ -45,6 +45,11 @@ def main():
         except Exception as e:  # malformed request: report, keep the line count aligned
             out.write(json.dumps({"e": "ProtocolError", "m": str(e)}) + "\n")
             continue
+        # resource guard (decided by the caller): a `*` width or precision fed with a huge number would make
+        # Python allocate gigabytes
+        if q.get("g"):
+            out.write(json.dumps({"e": "ResourceGuard", "m": "huge number next to a * code"}) + "\n")
+            continue
         try:
             text = fmt % vals
             res = {"t": text}
